@@ -67,7 +67,7 @@ Proof.
     intros H; inversion H; subst. reflexivity.
 Qed.
 
-(* what PersistEntity writes for a declared field that the checker admits and the entity provides *)
+(* what PersistEntity writes for a declared field that the checker allows and the entity provides *)
 Lemma persist_fields_get f v fv ch : lookup_fv fv f = Some (Some v) -> checked ch f = true ->
   forall decl cur, al_get f (persist_fields decl fv ch cur) =
                    if existsb (fun p : name * bool => str_eqb (fst p) f) decl then Some (FStr v) else al_get f cur.
@@ -150,7 +150,7 @@ Section UniqueReject.
     rewrite (persist_root_ef s0 cr sys fv sv ch e Hr Hf). reflexivity.
   Qed.
 
-  (* when the entity supplies the value v for the declared field f and the field checker admits f,
+  (* when the entity supplies the value v for the declared field f and the field checker allows f,
      the persisted value is v *)
   Lemma new_f_supplied cr sys fv ch e v d :
     find_store sch s = Some d -> declares_field d f = true ->
